@@ -27,7 +27,10 @@ def run(ctx):
         se.mc(ctx, ["rmw3", "dd3", "grow_shrink3", "invalid_then_valid3"], "sim3", simulate=20000, depth=800, timeout=2400)
     # 2. guards: losing one must break a property in the model (non-vacuity); quick tier: two cheap ones
     for g, b in (WITNESS[:2] if quick else WITNESS):
-        r = se.mc(ctx, [b], f"off_{g}", off=(g,), expect="any", timeout=300 if quick else 2400,
+        # 3-transaction blocks are beyond exhaustive search (measured: no result in 40 minutes): random behaviours
+        big = b.endswith("3")
+        r = se.mc(ctx, [b], f"off_{g}", off=(g,), expect="any", timeout=300 if quick else (1200 if big else 2400),
+                  simulate=20000 if big else None, depth=900 if big else None,
                   invariants=["CommitMatchesRef", "CommittedReadsFresh", "FinalOk", "FinalityFresh"])
         ctx.guards[g] = (f"load-bearing on {b}: {r['invariant'] or r['violation']} at depth {len(r['trace_actions'])}"
                          if not r["ok"] else f"no counterexample on {b}")
